@@ -152,6 +152,15 @@ func c19Worker(c *core.Ctx, idx, w int, p *plenc.Plenc, name string, nops int, v
 	}
 	lo, hi := scratch.Range()
 	fresh := w * 1000000
+	// whole results kept for later (a pointer field can be changed behind its owner's back without any
+	// string's bytes changing), and one target that is decoded into again and again
+	type keptResult struct {
+		got  *c19Intern
+		want c19Intern
+		op   int
+	}
+	var kept []keptResult
+	var reused c19Intern
 	for op := 0; op < nops; op++ {
 		a, b := c19Value(r, vocab, &fresh)
 		da, err, pn := marshal(p, nil, &a)
@@ -179,8 +188,15 @@ func c19Worker(c *core.Ctx, idx, w int, p *plenc.Plenc, name string, nops int, v
 		if err, pn := unmarshal(p, in, &gotPlain); err != nil || pn != "" {
 			return fmt.Sprintf("Unmarshal (twin): %v %s", err, pn), retained, scratch
 		}
+		if err, pn := unmarshal(p, in, &reused); err != nil || pn != "" {
+			return fmt.Sprintf("Unmarshal into a re-used target: %v %s", err, pn), retained, scratch
+		}
 		for i := range in {
 			in[i] = ^in[i] // the caller re-uses its buffer
+		}
+		if op%4 == 1 && len(kept) < 64 {
+			g := got
+			kept = append(kept, keptResult{&g, a, op})
 		}
 		if d := model.Diff(reflect.ValueOf(a), reflect.ValueOf(got), "$"); d != "" {
 			return fmt.Sprintf("op %d: interned decode differs from the value that was encoded: %s", op, d), retained, scratch
@@ -207,6 +223,11 @@ func c19Worker(c *core.Ctx, idx, w int, p *plenc.Plenc, name string, nops int, v
 			for _, rt := range retained {
 				if rt.s != rt.clone {
 					return fmt.Sprintf("%s: a string returned earlier changed from %q to %q", rt.where, rt.clone, rt.s), retained, scratch
+				}
+			}
+			for _, k := range kept {
+				if d := model.Diff(reflect.ValueOf(k.want), reflect.ValueOf(*k.got), "$"); d != "" {
+					return fmt.Sprintf("worker %d: the value decoded at op %d changed after it was returned (by op %d): %s", w, k.op, op, d), retained, scratch
 				}
 			}
 		}
